@@ -81,7 +81,7 @@ func (s *restServer) kill() {
 }
 
 type restResp struct {
-	Status  int    // 0 = no complete HTTP response (dropped connection)
+	Status  int // 0 = no complete HTTP response (dropped connection)
 	Body    []byte
 	Dropped string
 }
